@@ -410,7 +410,12 @@ func (p *parser) readError(idl *IDL) (*Error, error) {
 	}
 
 	p.advanceOnLine()
+	start := p.position
 	e.Type = p.readType()
+	if e.Type == nil && p.position != start {
+		// something followed the name on its line, but it is not a type
+		return nil, fmt.Errorf("invalid error parameters")
+	}
 
 	return e, nil
 }
